@@ -12,6 +12,14 @@ CHECKS = {
    text="Bounded exhaustive exploration on the implementation: every case of the instruction matrix, SEQ-L, BYTES-n, entry-point and extra-EIP families on the 12 forks Frontier..Shanghai is executed on /repo's vm in 4 configurations and on the unmodified go-ethereum v1.12.0 interpreter (reference model in the implementation language); return data, failure class, leftover gas, created address, logs, refund, self-destructs and the digest of every mutated account/slot must be equal.",
    tech="stateless bounded-exhaustive enumeration (operand-deviation-bounded + complete sequence/byte enumeration) of executions on the real code vs reference implementation",
    note="Coverage statement is relative to the declared alphabets/bounds (evidence.bounds)."),
+ "C02": dict(cat="model_checking", ref="DESIGN.md §4 C02",
+   text="Bounded exhaustive exploration on the implementation: C01's program families x warm/cold access lists x gas limits (every step boundary of the ample-gas run -1/0/+1 at all depths, their 64/63 images, complete ranges for cheap programs) executed on /repo's vm and on go-ethereum v1.12.0 with equivalent recording debug tracers; the per-step (pc, op, gas, cost, depth, refund, error) sequences, per-frame gas handed in/used, leftover, refund and result must be equal in every execution.",
+   tech="stateless bounded-exhaustive enumeration of (program, gas limit) executions on the real code, step-by-step differential comparison with the reference implementation",
+   note="Coverage is relative to the declared program alphabets and the sweep rule (evidence.bounds)."),
+ "C03": dict(cat="model_checking", ref="DESIGN.md §4 C03",
+   text="Bounded exhaustive exploration on the implementation under crash monitors: all byte strings of length <=2 as code, the journal-opcode operand x memory x storage-encoding boundary product (<=k deviations from well-formed), and the Artela-precompile target x reach x payload-length x ABI-word x host-answer product, each run in memory-limited worker processes under recover() with a state-read sentinel; after every return the same EVM must be at rest (depth 0, call-tree cursor nil, static flag clear, follow-up call announced as a depth-0 start).",
+   tech="stateless bounded-exhaustive enumeration of inputs (boundary alphabets, deviation-bounded) executed on the real code with crash/fatal-error attribution and a post-condition on the same instance",
+   note="Worker deaths (fatal errors) are attributed to the case in flight and reported as violations; the one open finding (unbounded VRJNAL loop) is cut off by the sentinel and listed in known_findings.txt."),
 }
 
 NOT_YET = {}
